@@ -118,9 +118,19 @@ def _run(prop: str, args, t0: float) -> int:
                 json.dump({"property": prop, "key": inst.key, **inst.as_dict()}, fh, indent=1)
         print(f"VIOLATION property={prop} replay={path}")
 
+    sens = None
+    if args.tier == "thorough" and replay_key is None:
+        from .mutate import sensitivity
+
+        funcs = sorted({i.func for r in results for i in r.instances if i.func in repo.funcs})
+        sens = sensitivity(repo, prop, funcs, known, limit=int(os.environ.get("VERIF_MUTANTS", "160")), seed=int(os.environ.get("VERIF_SEED", "0") or 0))
+        print(
+            f"   sensitivity (E9): {sens.get('mutants', 0)} in-memory mutants of {len(sens.get('functions_mutated', []))} functions: "
+            f"{sens.get('killed', 0)} killed, {sens.get('undecided', 0)} undecidable, {sens.get('survived', 0)} survived, {sens.get('error', 0)} checker errors"
+        )
     wall = time.time() - t0
     if not args.no_evidence and replay_key is None:
-        _write_evidence(prop, args, repo, ctx, results, violations, known_hits, n_inst, n_ok, wall)
+        _write_evidence(prop, args, repo, ctx, results, violations, known_hits, n_inst, n_ok, wall, sens)
     print(
         f"== {prop}: {n_inst} obligations, {n_ok} discharged, {len(known_hits)} known finding(s), "
         f"{len(violations)} violation(s), {wall:.2f}s"
@@ -128,7 +138,7 @@ def _run(prop: str, args, t0: float) -> int:
     return exit_code
 
 
-def _write_evidence(prop, args, repo, ctx, results, violations, known_hits, n_inst, n_ok, wall) -> None:
+def _write_evidence(prop, args, repo, ctx, results, violations, known_hits, n_inst, n_ok, wall, sens=None) -> None:
     os.makedirs(args.evidence_dir, exist_ok=True)
     meta = META.get(prop, {})
     samples = []
@@ -173,6 +183,9 @@ def _write_evidence(prop, args, repo, ctx, results, violations, known_hits, n_in
         "known_findings_matched": [i.key for i, _ in known_hits],
         "not_decided": meta.get("not_decided", []),
     }
+    if sens is not None:
+        cov["sensitivity"] = sens
+        cov["evaluations"] = n_inst + sens.get("mutants", 0)
     if ctx._cg is not None:
         cov["call_graph"] = {
             "call_sites": ctx.cg.n_calls,
